@@ -127,8 +127,12 @@ fn real_main() {
             }
             match viol {
                 Some(v) => {
-                    println!("VIOLATION property={} replay={path}\n[{}] {}", prop_of, v.0, v.1);
-                    std::process::exit(1);
+                    if let Some(why) = &v.2 {
+                        println!("KNOWN-FINDING: property={} {why}\n[{}] {}", prop_of, v.0, v.1);
+                    } else {
+                        println!("VIOLATION property={} replay={path}\n[{}] {}", prop_of, v.0, v.1);
+                        std::process::exit(1);
+                    }
                 }
                 None => println!("no violation on the current tree"),
             }
